@@ -320,8 +320,12 @@ class Server:
             if len(pipeline) >= self._capacity:
                 if backpressure:
                     raise ServerBacklogFull(len(pipeline))
-                if not self._pipeline_notfull.wait(timeout * 0.99):
-                    raise ServerBacklogFull(len(pipeline), perf_counter() - t0)
+                deadline = t0 + timeout * 0.99
+                while len(pipeline) >= self._capacity:
+                    # Re-check after every wake-up: another caller may have
+                    # taken the freed slot before this one got the lock back.
+                    if not self._pipeline_notfull.wait(deadline - perf_counter()):
+                        raise ServerBacklogFull(len(pipeline), perf_counter() - t0)
 
             # Record the request in the ledger *before* handing it to the workers:
             # otherwise a fast worker's result can reach `_gather_output` before the
@@ -573,15 +577,19 @@ class AsyncServer:
                     raise ServerBacklogFull(len(pipeline))
                     # If this is behind a HTTP service, should return
                     # code 503 (Service Unavailable) to client.
-                try:
-                    await asyncio.wait_for(
-                        self._pipeline_notfull.wait(), timeout * 0.99
-                    )
-                except (
-                    asyncio.TimeoutError,
-                    TimeoutError,
-                ):  # should be the first one, but official doc referrs to the second
-                    raise ServerBacklogFull(len(pipeline), perf_counter() - t0)
+                deadline = t0 + timeout * 0.99
+                while len(pipeline) >= self._capacity:
+                    # Re-check after every wake-up: another caller may have
+                    # taken the freed slot before this one got the lock back.
+                    try:
+                        await asyncio.wait_for(
+                            self._pipeline_notfull.wait(), deadline - perf_counter()
+                        )
+                    except (
+                        asyncio.TimeoutError,
+                        TimeoutError,
+                    ):  # should be the first one, but official doc referrs to the second
+                        raise ServerBacklogFull(len(pipeline), perf_counter() - t0)
 
             # We can't accept situation that an entry is placed in `pipeline`
             # but not in `_input_buffer`, for that entry would be stuck in `pipeline`
